@@ -57,6 +57,21 @@ def _raise_class(ctx: Ctx, fn: FuncInfo, r: ast.Raise) -> Optional[str]:
     return n.split(".")[-1] if n else None
 
 
+def _operand_name(helper: FuncInfo, index: int, skip: int) -> Optional[str]:
+    """The name the `index`-th positional argument of a call has inside `helper`: the parameter, or - for a helper
+    that takes the operands as `*operands` and checks them in a loop - the loop variable over them."""
+    a = helper.node.args
+    params = [x.arg for x in a.args][skip:]
+    if index < len(params):
+        return params[index]
+    if a.vararg is not None:
+        loops = [n for n in ast.walk(helper.node) if isinstance(n, ast.For) and path_of(n.iter) == a.vararg.arg and isinstance(n.target, ast.Name)
+                 and not any(isinstance(x, ast.Break) for x in ast.walk(n))]
+        if len(loops) == 1:
+            return loops[0].target.id
+    return None
+
+
 def _guards_for(ctx: Ctx, fn: FuncInfo, operand: str, operators: Optional[Tuple[str, ...]], depth: int = 0) -> Set[str]:
     """Which of {"value", "literal"} guards does `fn` apply to the expression held
     in variable `operand` (for *all* of the given operator spellings, if any)?"""
@@ -100,7 +115,9 @@ def _guards_for(ctx: Ctx, fn: FuncInfo, operand: str, operators: Optional[Tuple[
                 else:
                     other_ok = False
                 continue
-            if txt in ("self.env.well_typed", "env.well_typed", "func") or "isinstance(func" in txt:
+            ic2 = isinstance_classes(test)
+            if txt in ("self.env.well_typed", "env.well_typed") or isinstance(test, ast.Name) or (ic2 is not None and ic2[1] == ["FilterFunction"]):
+                # (the type checks are on; the function was found in the environment; it is a type-aware function)
                 if not branch:
                     other_ok = False
                 continue
@@ -130,8 +147,9 @@ def _guards_for(ctx: Ctx, fn: FuncInfo, operand: str, operators: Optional[Tuple[
                 continue
             for i, a in enumerate(c.args):
                 if path_of(a) == operand:
-                    params = [x.arg for x in helper.node.args.args][skip:]
-                    if i < len(params):
+                    pname_ = _operand_name(helper, i, skip)
+                    params = {i: pname_}
+                    if pname_ is not None:
                         conds = path_conditions(fn.node, c)
                         applies = True
                         for test, branch in conds:
@@ -285,10 +303,21 @@ def r7_2(ctx: Ctx) -> RuleResult:
                construct=f"COMPARISON_OPERATORS missing {missing}", file=parser.module.relpath, qualname=parser.qualname)
     else:
         rr.ok(where, "COMPARISON_OPERATORS contains the six RFC comparison operators")
+    # a documented second spelling of a comparison operator gets the same comparability checks as the operator
+    from .c13 import OPERATOR_ALIASES
+
+    for alias, std in OPERATOR_ALIASES:
+        if (alias in cmp_ops) == (std in cmp_ops):
+            rr.ok(where, f"`{alias}` is checked for comparability like `{std}`")
+        else:
+            rr.bad(None, None, f"`{std}` is in Parser.COMPARISON_OPERATORS but its documented spelling `{alias}` is not: a non-singular query or a "
+                   f"logical-typed function result compiles as an operand of `{alias}`", construct=f"COMPARISON_OPERATORS: {alias} vs {std}",
+                   file=parser.module.relpath, qualname=parser.qualname + ".COMPARISON_OPERATORS")
     pi = parser.methods["parse_infix_expression"]
     ic = [c for c in calls(pi.node, "InfixExpression")]
     left, right = path_of(ic[0].args[0]), path_of(ic[0].args[2])
     checked: Dict[str, FuncInfo] = {}
+    operand_names: Dict[str, str] = {}
     for c in calls(pi.node):
         if isinstance(c.func, ast.Attribute) and path_of(c.func.value) == "self" and c.args:
             helper = ctx.repo.find_method(parser, c.func.attr)
@@ -296,19 +325,24 @@ def r7_2(ctx: Ctx) -> RuleResult:
                 continue
             conds = path_conditions(pi.node, c)
             under_cmp = any("COMPARISON_OPERATORS" in ast.unparse(t) and b for t, b in conds)
-            if under_cmp and path_of(c.args[0]) in (left, right):
-                checked[path_of(c.args[0]) or ""] = helper
+            for i_, a_ in enumerate(c.args):
+                side_ = path_of(a_)
+                if under_cmp and side_ in (left, right):
+                    pn_ = _operand_name(helper, i_, 1)
+                    if pn_ is not None:
+                        checked[side_ or ""] = helper
+                        operand_names[side_ or ""] = pn_
     for side in (left, right):
         if side in checked:
             rr.ok(pi.loc(), f"operand `{side}` checked by {checked[side].name}() for comparison operators")
         else:
             rr.bad(pi, pi.node, f"operand `{side}` of a comparison is not checked for comparability",
                    construct=f"comparability of {side}")
-    helpers = set(checked.values())
-    for h in helpers:
+    helpers = {(h_, operand_names[s_]) for s_, h_ in checked.items()}
+    for h, pname in sorted(helpers, key=lambda t: (t[0].qualname, t[1])):
         from .common import follow_delegation
 
-        h, param = follow_delegation(ctx, h, [a.arg for a in h.node.args.args][1])
+        h, param = follow_delegation(ctx, h, pname)
         raises = [(r, path_conditions(h.node, r)) for r in ast.walk(h.node) if isinstance(r, ast.Raise)]
         nonsing = any(
             any(isinstance_classes(t) == (param, ["Path"]) and b for t, b in conds)
